@@ -25,6 +25,7 @@ PROGRAMS = {
     "ir": "fe001304",
     "clr_halt": "ccfc00de1306",                    # MV (FC),0 ; HALT ; JR start   (a polled, masked request is acknowledged, then the CPU halts)
     "lcd": "083fa800a00008b9a800a000130e",           # MV A,3F ; MV [0A000],A ; MV A,B9 ; MV [0A000],A ; JR start   (display on, page set, VRAM untouched)
+    "romw": "085aa8000c0ca80010007c00130c",       # MV A,5A ; MV [C0C00],A ; MV [01000],A ; ... stores into the ROM window and the read-only low range
     "rst": "000000ff1306",                           # NOP NOP NOP RESET (-> reset vector -> start)   (timers must keep their boundaries)
     "xram": "085aa8ff7f057c001308",                  # MV A,5A ; MV [57FFF],A ; DEC A ; JR ...   (last byte of a RAM expansion overlay, Python only)
     "card": "085aa8ffff047c001308",                  # MV A,5A ; MV [4FFFF],A ; DEC A ; JR ...   (last byte of the card window is written)
@@ -327,7 +328,7 @@ def _shard(args):
 
 
 def combos_for(impl, thorough, seed):
-    progs = [p for p in PROGRAMS if p not in ("xram", "rst")]      # xram only adds a RAM expansion overlay for C16
+    progs = [p for p in PROGRAMS if p not in ("xram", "rst", "romw")]      # xram only adds a RAM expansion overlay for C16
     hands = list(HANDLERS)
     if impl == "rust":
         imrs = IMRS if thorough else [0x00, 0x81, 0x84, 0x88, 0x8F, 0x0F]
